@@ -1093,6 +1093,92 @@ def gen_local(repo):
     return "\n".join(out) + "\n"
 
 
+class PolicyEmit:
+    """pure translation of the built-in policy functions (`fn policy(requested, target, free) -> Policy`):
+    if / else-if chains of `return`s, a final `match free { f if guard => …, _ => … }` or expression"""
+    def ex(self, e):
+        k = e[0]
+        if k == 'num': return str(e[1])
+        if k == 'path':
+            n = e[1]
+            if n == 'TREE_FRAMES': return 'tf'
+            if n == 'u8::MAX': return '255'
+            if n.startswith('Policy::'):
+                return '.' + {'Steal': 'steal', 'Demote': 'demote', 'Invalid': 'invalid'}[n.split('::')[1]]
+            if re.fullmatch(r"[a-z_][a-z0-9_]*", n): return n
+            raise TranslateError(f"policy: path {n}")
+        if k == 'field' and e[2] == '0': return self.ex(e[1])          # `Class.0`
+        if k == 'call' and e[1] == 'Policy::Match': return f"(.match {self.ex(e[2][0])})"
+        if k == 'bin':
+            a, b = self.ex(e[2]), self.ex(e[3])
+            m = {'>': '>', '<': '<', '>=': '≥', '<=': '≤'}
+            if e[1] in m: return f"(decide ({a} {m[e[1]]} {b}))"
+            if e[1] in ('/', '+', '-', '*', '&&', '||', '=='): return f"({a} {e[1]} {b})"
+            raise TranslateError(f"policy: operator {e[1]}")
+        if k == 'mcall' and e[2] == 'contains' and e[1][0] == 'mcall' and e[1][2] == 'load' and e[1][1][0] == 'path':
+            rng = {'PERFECT': 'p', 'GOOD': 'g'}.get(e[1][1][1])
+            if rng is None: raise TranslateError(f"policy: range {e[1][1][1]}")
+            v = self.ex(e[3][0])
+            return f"(decide ({rng}min ≤ {v}) && decide ({v} ≤ {rng}max))"
+        raise TranslateError(f"policy: expression {k}")
+
+    def returns(self, block):
+        """value of a block that consists of `return e;`"""
+        if len(block[1]) == 1 and block[1][0][0] == 'return' and block[2] is None: return self.ex(block[1][0][1])
+        if not block[1] and block[2] is not None and block[2][0] == 'ret': return self.ex(block[2][1])
+        raise TranslateError("policy: branch is not a single return")
+
+    def body(self, stmts, tail):
+        if not stmts:
+            return self.tail(tail)
+        s = stmts[0]
+        if s[0] == 'expr' and s[1][0] == 'if':
+            return self.ifchain(s[1], lambda: self.body(stmts[1:], tail))
+        if s[0] == 'expr' and s[1] == ('tuple', []):
+            return self.body(stmts[1:], tail)
+        raise TranslateError(f"policy: statement {s[0]} {s[1][0] if len(s) > 1 else ''}")
+
+    def ifchain(self, e, rest):
+        c = self.ex(e[1]); th = self.returns(e[2])
+        if e[3] is None: el = rest()
+        elif e[3][0] == 'if': el = self.ifchain(e[3], rest)
+        else: raise TranslateError("policy: else block")
+        return f"if {c} then {th} else {el}"
+
+    def tail(self, e):
+        if e is None: raise TranslateError("policy: no result")
+        if e[0] == 'match':
+            scrut = self.ex(e[1]); out = ""; n = 0
+            for pats, guard, body in e[2]:
+                if len(pats) != 1: raise TranslateError("policy: or-pattern")
+                p = pats[0]
+                if p[0] == 'pvar' and guard is not None:
+                    out += f"if (let {p[1]} := {scrut}; {self.ex(guard)}) then {self.ex(body)} else "; n += 1
+                elif p[0] == 'pwild' and guard is None:
+                    return out + self.ex(body)
+                else: raise TranslateError(f"policy: arm {p}")
+            raise TranslateError("policy: match without a default arm")
+        return self.ex(e)
+
+def gen_policy(repo):
+    """the built-in policies: `Classing::simple`, `Classing::movable` (lib.rs), `ClassingConfig::classing` (eval)"""
+    lib = read(repo + '/core/src/lib.rs'); ev = read(repo + '/eval/src/classes.rs')
+    out = ["/- GENERATED by tools/rs2lean.py from core/src/lib.rs and eval/src/classes.rs (`fn policy`) — do not edit. -/",
+           "import LLFreeV.Model.Base", "namespace LLFree.Gen.P", "open LLFree", ""]
+    em = PolicyEmit()
+    def one(src, within, lean, params, doc):
+        sig, body = extract_fn(src, 'policy', within=within)
+        if ' '.join(sig.split()) != 'requested: Class, target: Class, free: usize':
+            raise TranslateError(f"policy signature {sig!r}")
+        ast = P(tokenize(body)).block()
+        out.append(f"/-- {doc} -/")
+        out.append(f"def {lean} {params}: PolicyFn := fun requested target free =>\n  {em.body(ast[1], ast[2])}\n")
+    one(lib, 'pub fn simple(', 'simple', '(tf : Nat) ', '`Classing::simple`: `fn policy`')
+    one(lib, 'pub fn movable(', 'movable', '(tf : Nat) ', '`Classing::movable`: `fn policy`')
+    one(ev, 'pub fn classing(', 'eval', '(pmin pmax gmin gmax : Nat) ', '`ClassingConfig::classing`: `fn policy` (`PERFECT` = (pmin, pmax), `GOOD` = (gmin, gmax))')
+    out.append("end LLFree.Gen.P")
+    return "\n".join(out) + "\n"
+
 def gen_huge(repo):
     """`impl HugeEntry` (lower.rs): a u16 counter with `u16::MAX` as the marker of a huge allocation"""
     src = read(repo + '/core/src/lower.rs')
@@ -1131,7 +1217,7 @@ def gen_huge(repo):
     out.append("end LLFree.Gen.H")
     return "\n".join(out) + "\n"
 
-GENERATORS = {'Consts': gen_consts, 'Fza': gen_fza, 'Leaf': gen_leaf, 'Tree': gen_tree, 'Local': gen_local, 'Huge': gen_huge}
+GENERATORS = {'Consts': gen_consts, 'Fza': gen_fza, 'Leaf': gen_leaf, 'Tree': gen_tree, 'Local': gen_local, 'Huge': gen_huge, 'Policy': gen_policy}
 
 def write_if_changed(path, txt):
     if os.path.exists(path) and read(path) == txt: return False
